@@ -293,10 +293,13 @@ class SshHostKeyECDSABase(SshHostKeyBase):
         parser.parse_string('curve_identifier', 4, 'ascii', SshEllipticCurveIdentifier.from_code)
         parser.parse_bytes('curve_data', 4)
 
-        public_key = PublicKey.from_params(PublicKeyParamsEcdsa.from_octet_bit_string(
-            parser['curve_identifier'].value.named_group,
-            parser['curve_data'],
-        ))
+        try:
+            public_key = PublicKey.from_params(PublicKeyParamsEcdsa.from_octet_bit_string(
+                parser['curve_identifier'].value.named_group,
+                parser['curve_data'],
+            ))
+        except ValueError as e:  # not an uncompressed point of that curve
+            six.raise_from(InvalidValue(bytes(parser['curve_data']), cls, 'curve_data'), e)
 
         del parser['curve_identifier']
         del parser['curve_data']
@@ -1111,7 +1114,11 @@ class SshX509Certificate(ParsableBase, SshHostKeyBase):
 
         public_key = parser['public_key']
         if host_key_algorithm is None:
-            host_key_algorithm = cls._NOT_DEFINED_HOST_KEY_ALGORITHMS_BY_PUBLIC_KEY_TYPE.get(public_key.key_type, None)
+            try:
+                key_type = public_key.key_type
+            except ValueError as e:  # asn1crypto decodes lazily: a structure that is not a certificate shows up here
+                six.raise_from(InvalidValue(parser.unparsed, cls, 'public_key'), e)
+            host_key_algorithm = cls._NOT_DEFINED_HOST_KEY_ALGORITHMS_BY_PUBLIC_KEY_TYPE.get(key_type, None)
             if host_key_algorithm is None:
                 raise InvalidType()
 
@@ -1159,7 +1166,12 @@ class SshX509CertificateChain(ParsableBase, SshHostKeyBase):
         certificates = []
         for _ in range(parser['certificate_count']):
             parser.parse_bytes('certificate', 4)
-            certificates.append(PublicKeyX509.from_der(bytes(parser['certificate'])))
+            try:
+                certificates.append(PublicKeyX509.from_der(bytes(parser['certificate'])))
+            except ValueError as e:
+                six.raise_from(InvalidValue(bytes(parser['certificate']), cls, 'certificate'), e)
+        if not certificates:
+            raise InvalidValue(parser['certificate_count'], cls, 'certificate_count')
 
         parser.parse_numeric('ocsp_response_count', 4)
         ocsp_responses = []
